@@ -131,7 +131,8 @@ pub async fn extras(out: &mut Out, rng: &mut Rng, real: &mut Real, ups: &[Upd]) 
     }
     // another writer of the manifest: ManifestManager::add_segment / update, with a real segment object
     if rng.chance(1, 2) && !ups.is_empty() {
-        let id = real.man.next_segment_id.max(real.man.checkpoint.as_ref().map(|c| c.last_segment_id + 1).unwrap_or(0));
+        // at `next_segment_id` (the comparison of add_segment at equality) or above it
+        let id = real.man.next_segment_id.max(real.man.checkpoint.as_ref().map(|c| c.last_segment_id + 1).unwrap_or(0)) + *rng.pick(&[0u64, 0, 1, 3]);
         // a copy of an update of the set (duplicates are part of the property)
         let u: Upd = rng.pick(ups).clone();
         let ts = u.1.timestamp.time;
@@ -161,6 +162,27 @@ pub async fn extras(out: &mut Out, rng: &mut Rng, real: &mut Real, ups: &[Upd]) 
         let r2 = RecoveryManager::new(real.store.clone(), PREFIX, real.rid).recover().await;
         out.op("REC".into(), show_recovered(&r2));
     }
+}
+
+/// a checkpoint whose `last_segment_id` is at / above `next_segment_id - 1` (covers every listed
+/// segment; above: ids that were never allocated): `compact_segments` must move `next_segment_id` past it
+pub async fn covering_checkpoint(out: &mut Out, rng: &mut Rng, real: &mut Real) {
+    let persisted = real.persisted();
+    if persisted.is_empty() {
+        return;
+    }
+    let state = crate::c11::fold_real(&persisted);
+    let name = 50 + rng.below(40);
+    let last = real.man.next_segment_id.saturating_sub(1) + *rng.pick(&[0u64, 1, 2, 5]);
+    real.chk(out, name, last, &state).await;
+    real.mcompact(out, name, last, state.len() as u64);
+    // the next flush after it: id allocation must not fall under the checkpoint
+    let id = real.malloc(out);
+    let u = rng.pick(&persisted).clone();
+    let (size, lo, hi) = real.seg(out, id, &[u]).await;
+    real.madd(out, id, 1, size, lo, hi);
+    real.msave(out).await;
+    out.count("x11:covering-checkpoint(last>=next-1)");
 }
 
 /// the production start-up sequence on a fresh node (after `set_wal`): op APPLY2
